@@ -947,11 +947,11 @@ impl KotoVm {
                             }
                         };
 
-                        // A failed call may have truncated the stack below this frame's registers
-                        if self.registers.len() < self.min_frame_registers {
-                            self.registers
-                                .resize(self.min_frame_registers, KValue::Null);
-                        }
+                        // A failed call may have truncated the stack below this frame's registers,
+                        // and an operation that failed while it was being set up (e.g. the call of
+                        // an overridden operator) may have left its registers above them.
+                        self.registers
+                            .resize(self.min_frame_registers, KValue::Null);
                         self.set_register(recover_register, catch_value);
                         self.set_ip(ip);
                     }
